@@ -169,6 +169,13 @@ class Repo:
                 src = src[1:]
             try:
                 self.modules[rel] = Module(rel, src)
+                if os.environ.get('SA_NO_CANON') != '1':
+                    from .canon import inline_fresh_temps
+                    it = inline_fresh_temps(rel, self.modules[rel], refnames())
+                    if it:
+                        self.modules[rel].reindex()
+                        self.inlined = getattr(self, 'inlined', {})
+                        self.inlined[rel] = it
                 if os.environ.get('SA_NO_RENAME') != '1':
                     rn = normalise_local_names(rel, self.modules[rel])
                     if rn:
